@@ -169,7 +169,7 @@ def gen_file_body(r, env, nblocks, own_labels, own_consts, own_bigs, own_dlabels
         for _ in range(r.randint(1, 4)):
             lines.append(('    ' if r.random() < 0.7 else '') + code_line(r, env))
         if r.random() < 0.15:
-            lines.append(r.choice(('# a comment', '', '   ', '    # indented comment')))
+            lines.append(r.choice(('# a comment', '', '   ', '    # indented comment', '# see /* the old notes', '# end of notes */ here', '# /* one-line */ marker', '; not a comment char' if False else '#')))
     for lab in pending_labels:
         lines.append(lab + ':')
         lines.append('    nop')
@@ -434,6 +434,17 @@ def add_decoys(r, tree, heavy=True):
                     continue
                 tree.setdefault('decoys', {})[p] = 'DECOY%d = %d\n    addi x0, x0, %d\n    nop\n' % (n, n, n % 7)
                 n += 1
+    # names that differ by case only are different names: put such look-alikes right where the search looks
+    for inc in tree['includes']:
+        base = posixpath.basename(inc['written'])
+        for alt in (base.upper(), base.capitalize(), base.lower()):
+            if alt == base or r.random() < 0.6:
+                continue
+            for d in list(tree['inc_dirs']) + [posixpath.dirname(inc['target'])]:
+                p = posixpath.normpath(posixpath.join(d, posixpath.dirname(inc['written']), alt))
+                if p not in tree['files'] and p not in (tree.get('decoys') or {}):
+                    tree.setdefault('decoys', {})[p] = 'CASEDECOY%d = %d\n    ori t0, t0, %d\n' % (n, n, n % 9)
+                    n += 1
     return tree
 
 
